@@ -50,9 +50,15 @@ func (f *When) Call(s *slip.Scope, args slip.List, depth int) (result slip.Objec
 	result = nil
 	d2 := depth + 1
 	pos := 0
-	if slip.EvalArg(s, args, pos, d2) != nil {
+	test := slip.EvalArg(s, args, pos, d2)
+	if slip.IsExit(test) {
+		return test
+	}
+	if test != nil {
 		for pos++; pos < len(args); pos++ {
-			result = slip.EvalArg(s, args, pos, d2)
+			if result = slip.EvalArg(s, args, pos, d2); slip.IsExit(result) {
+				break
+			}
 		}
 	}
 	return
